@@ -425,30 +425,51 @@ def _reads_place(b, operand, place):
     return len(ds) == 1 and ds[0][0] == 'stmt' and not ds[0][2]['dst']['p'] and ds[0][2]['rv']['k'] == 'use' and ds[0][2]['rv']['ops'][0]['k'] in ('copy', 'move') and ds[0][2]['rv']['ops'][0]['pl'] == place
 
 
-def flows_to_return(b, local, limit=400):
-    """does the value in `local` reach the return place?  Forward, over-approximate: through moves, wrappers,
-    any call taking it by value (into the call's result), and insertion calls (into the collection the
-    `&mut` receiver points to)."""
+def flows_to_return(b, local, limit=600):
+    """does the value in `local` reach the return place?  Forward, over-approximate: through moves, wrappers, any call taking it by value (into
+    the call's result), and insertion calls (into the collection the `&mut` receiver points to).  Positions inside tuples built in the body
+    are kept apart (`let (upper, lower) = helper(..); out.extend(upper); drop(lower)` loses the lower value)."""
     INS = ('push', 'push_back', 'insert', 'extend', 'append', 'extend_from_slice')
-    seen = set(); work = [local]
+    def fs(pl): return tuple(f for f, of in _projs(pl))
+    def through(pl, path):
+        """the tainted part (at `path` inside the local) as seen through the place: remaining path, or None if the place misses it"""
+        q = fs(pl); n = min(len(q), len(path))
+        if q[:n] != path[:n]: return None
+        return path[len(q):] if len(q) <= len(path) else ()
+    seen = set(); work = [(local, ())]
     while work and len(seen) < limit:
-        l = work.pop()
-        if l in seen: continue
-        seen.add(l)
+        l, path = work.pop()
+        if (l, path) in seen: continue
+        seen.add((l, path))
         if l == 0: return True
         for kind, bi, x in b.uses.get(l, ()):
             if kind == 'stmt':
-                if 'dst' in x: work.append(x['dst']['l'])
+                if 'dst' not in x: continue
+                rv = x['rv']; dpath = fs(x['dst'])
+                hit = None
+                if 'pl' in rv and rv['pl']['l'] == l: hit = through(rv['pl'], path)
+                for k_, o in enumerate(rv.get('ops', [])):
+                    if o['k'] in ('copy', 'move') and o['pl']['l'] == l:
+                        r = through(o['pl'], path)
+                        if r is None: continue
+                        hit = ((str(k_),) + r) if (rv['k'] == 'agg' and rv['adt'] == 'tuple') else (r if rv['k'] in ('use', 'cast') else ())
+                if hit is not None: work.append((x['dst']['l'], dpath + hit))
             elif kind == 'call':
-                work.append(x.dst['l'])
+                used = [a for a in x.args if a['k'] in ('copy', 'move') and a['pl']['l'] == l and through(a['pl'], path) is not None]
+                if not used: continue
+                work.append((x.dst['l'], ()))
                 if x.item in INS and x.args and x.args[0]['k'] in ('copy', 'move') and x.args[0]['pl']['l'] != l:
-                    # receiver `&mut coll`: the collection local(s) it borrows
-                    r = x.args[0]['pl']['l']
-                    for k2, b2, d2 in b.defs_of(r):
-                        if k2 == 'stmt' and d2['rv']['k'] == 'ref': work.append(d2['rv']['pl']['l'])
-                        elif k2 == 'stmt' and d2['rv']['k'] == 'use' and d2['rv']['ops'][0]['k'] in ('copy', 'move'): work.append(d2['rv']['ops'][0]['pl']['l'])
-                    work.append(r)
-    return 0 in seen
+                    # receiver `&mut coll`: the collection local(s) it borrows (a reborrow chain `&mut *(&mut coll)` is followed down to the collection)
+                    rs = [x.args[0]['pl']['l']]; done_r = set()
+                    while rs:
+                        r = rs.pop()
+                        if r in done_r: continue
+                        done_r.add(r); work.append((r, ()))
+                        for k2, b2, d2 in b.defs_of(r):
+                            if k2 != 'stmt' or d2['dst']['p']: continue
+                            if d2['rv']['k'] == 'ref': rs.append(d2['rv']['pl']['l'])
+                            elif d2['rv']['k'] == 'use' and d2['rv']['ops'][0]['k'] in ('copy', 'move'): rs.append(d2['rv']['ops'][0]['pl']['l'])
+    return any(l == 0 for l, p_ in seen)
 
 
 # =============================================================================== concrete probing of a loop body
